@@ -229,6 +229,10 @@ def _clone(v, memo):
         memo[i] = r
         r.attrs = _clone(v.attrs, memo)
         return r
+    if hasattr(v, "__pyvc_clone__"):
+        r = v.__pyvc_clone__(memo)
+        memo[i] = r
+        return r
     return v
 
 
